@@ -194,8 +194,13 @@ def bootstrap_runs(chk: Check, n, kinds):
         rng.shuffle(variant)
         nrows = len(variant)
         intdata = i % 4 == 0
+        zeros = i % 5 == 3        # a COUNT column, mostly zeros: medians / low quantiles (and many resampled ones) are
+        #                           exactly 0, so relative effects are x/0 = +-inf or 0/0 = nan inside scipy's resampling
         cols = {"variant": variant,
-                "x": (nprng.integers(1, 20, nrows).astype(float) if intdata else nprng.lognormal(1, 0.7, nrows)).tolist(),
+                "x": (nprng.integers(1, 20, nrows).astype(float) if intdata else
+                      np.where(np.array([v == ids[0] for v in variant]), nprng.poisson(0.4, nrows),
+                               nprng.poisson(2.5, nrows)).astype(float) if zeros else
+                      nprng.lognormal(1, 0.7, nrows)).tolist(),
                 "s": (1 + nprng.poisson(2, nrows)).astype(float).tolist(),
                 "u": nprng.normal(0, 1, nrows).tolist()}
         alt = rng.choice(["two-sided", "greater", "less"])
@@ -206,6 +211,8 @@ def bootstrap_runs(chk: Check, n, kinds):
         skind = ("mean", "ratio", "median", "quantile")[i % 4]
         if intdata:
             skind = "mean"
+        if zeros:
+            skind = "quantile"
         common_kw = dict(alternative=alt, confidence_level=cl, n_resamples=nres, method=method, random_state=seed)
         if skind == "mean":
             columns, stat = "x", np.mean
@@ -217,7 +224,7 @@ def bootstrap_runs(chk: Check, n, kinds):
             columns, stat = ("u",), (lambda a, axis=0: np.median(a, axis=axis)[..., 0])
             metric = tt.Bootstrap(("u",), stat, **common_kw)
         else:
-            q = rng.choice([0.1, 0.5, 0.8])
+            q = rng.choice([0.1, 0.5, 0.8]) if not zeros else 0.5
             import functools
             columns, stat = "x", functools.partial(np.nanquantile, q=q)
             metric = tt.Quantile("x", q, **common_kw)
